@@ -65,12 +65,14 @@ pub struct Report {
   pub extra_cov: BTreeMap<String, serde_json::Value>,
   pub exhaustive: bool,
   pub vacuity: Vec<String>,
+  /// (payload, unit) -> (locus, case) used to name a hang/abort by the case that caused it
+  pub describe: Option<Box<dyn Fn(&str, u64) -> (String, String)>>,
 }
 
 impl Report {
   pub fn new(id: &str, tier: Tier, level: &str) -> Report {
     Report { id: id.to_string(), tier, level: level.to_string(), start: Instant::now(), out: WorkerOut::default(), machinery: vec![], flaky: 0,
-      rule: String::new(), assumptions: vec![], extra_cov: BTreeMap::new(), exhaustive: true, vacuity: vec![] }
+      rule: String::new(), assumptions: vec![], extra_cov: BTreeMap::new(), exhaustive: true, vacuity: vec![], describe: None }
   }
 
   /// default sink for enumeration checks
@@ -78,8 +80,9 @@ impl Report {
     match ev {
       Event::Done(_j, o) => self.out.merge(o),
       Event::Crash(j, u, kind) => {
-        let key = format!("{}|{}|unit", self.id, kind.class());
-        self.out.failures.push(Failure { key, case: format!("payload={} unit={}", j.payload, u), detail: format!("worker {:?} while running this unit alone (confirmed twice)", kind), payload: j.payload.clone(), unit: u });
+        let (locus, case) = match &self.describe { Some(d) => d(&j.payload, u), None => ("unit".to_string(), format!("payload={} unit={}", j.payload, u)) };
+        let key = format!("{}|{}|{}", self.id, kind.class(), locus);
+        self.out.failures.push(Failure { key, case, detail: format!("worker {:?} while running this unit alone (confirmed twice)", kind), payload: j.payload.clone(), unit: u });
         self.out.evaluations += 1;
       }
       Event::Flaky(j, u, kind) => { self.flaky += 1; self.machinery.push(format!("flaky crash {:?} at payload={} unit={} (did not reproduce alone)", kind, j.payload, u)); }
